@@ -65,6 +65,7 @@ fn random(a: &Args) {
     for k in 0..count + funnel + chain + nb {
         shredh::unwind::set(rng.gen_bool(a.num("punwind", 0.1)));
         shredh::record::set_early_pool(rng.gen_bool(0.3));
+        shredh::build::set_zst(if rng.gen_bool(0.25) { 0.5 } else { 0.0 });
         shredh::build::set_noise(if rng.gen_bool(0.2) { 0.06 } else { 0.0 });
         if k >= count {
             let prog = if k >= count + funnel + chain {
@@ -162,6 +163,7 @@ fn replay_chunk(lines: &[String], first_no: usize, seed: u64, variants: usize, k
         let sample_this = acc.written < keep && rng.gen_bool(0.01);
         shredh::unwind::set(rng.gen_bool(0.02));
         shredh::record::set_early_pool(rng.gen_bool(0.3));
+        shredh::build::set_zst(if rng.gen_bool(0.25) { 0.5 } else { 0.0 });
         shredh::build::set_noise(if rng.gen_bool(0.2) { 0.06 } else { 0.0 });
         let mut buf: Vec<Value> = Vec::new();
         let mut any_drift = false;
@@ -184,7 +186,8 @@ fn replay_chunk(lines: &[String], first_no: usize, seed: u64, variants: usize, k
                     acc.drift_samples.push(json!({"prog": prog, "model": ids, "real": real, "placements": placements(&r.rec.events)}));
                 }
             }
-            buf.extend(r.rec.events);
+            let mut r = r;
+            buf.extend(std::mem::take(&mut r.rec.events));
         }
         if any_drift {
             acc.drift_behaviours += 1;
@@ -267,6 +270,7 @@ fn sendable(a: &Args) {
     for k in 0..count {
         shredh::unwind::set(rng.gen_bool(0.1));
         shredh::record::set_early_pool(rng.gen_bool(0.3));
+        shredh::build::set_zst(if rng.gen_bool(0.25) { 0.5 } else { 0.0 });
         shredh::build::set_noise(if rng.gen_bool(0.2) { 0.06 } else { 0.0 });
         let mut cfg = base.clone();
         cfg.p_tl = *[0.0, 0.0, 0.05, 0.3].get(rng.gen_range(0..4)).unwrap();
